@@ -222,3 +222,6 @@ func stringsContains(a, b string) bool { return strings.Contains(a, b) }
 func stringsToLower(s string) string { return strings.ToLower(s) }
 
 func sortStrings(s []string) { sort.Strings(s) }
+
+// whereF renders the position of a function.
+func (c *Ctx) whereF(f *ssa.Function) string { return c.where(f, f) }
